@@ -156,4 +156,8 @@ def chdirSome : List CStep :=
 /-- `chdir` is a `contextlib.contextmanager` generator -/
 def chdirIsContextManager : Bool := true
 
+/-- the arguments `generate()` passes to `parser.parse(…)` (`<positional>` / keyword names) -/
+def parseCallArguments : List String :=
+  []
+
 end Dcg.Gen.GenerateSteps
